@@ -215,6 +215,11 @@ func (r *transport) handleUnrecognizedMethod(
 	req *http.Request,
 	urlKey string,
 ) (*http.Response, error) {
+	if internal.ParseCCRequestDirectives(req.Header).OnlyIfCached() {
+		// only-if-cached never reaches the origin (RFC 9111 §5.2.1.7), and
+		// nothing stored can answer a request the cache does not understand.
+		return make504Response(req)
+	}
 	if !internal.IsUnsafeMethod(req.Method) {
 		resp, err := r.upstream.RoundTrip(req)
 		if err != nil {
